@@ -310,6 +310,14 @@ def gen_cases(props, tier, seed):
     base.append(['x-' * 60, 'y.' * 60, 'z' * 120, 'z' * 120, 'y' * 120, 'xyz', 'xyq', 'xyq', 'A-1', 'B-2'])
     if 'C14' in props and not any(p in props for p in ('C03', 'C13', 'C18')):
         base = [e for e in base if len(e) <= 4 or len(e) > 20][: (220 if tier == 'quick' else 1500)]
+    # a later pass that generalises differently and drops an example only an earlier pass covered (sampled path)
+    regress = [['A1', 'AAA1', 'AA1', 'B22', 'abc', 'a-b', '1-2', 'x y']]
+    for ex in regress:
+        for sd in (3, 4, 8, 1, 2):
+            cases.append((ex, 0, 1, sd))
+    # nothing to extract from (no example survives cleaning): early-return paths, also with a seed
+    degenerate = [[], [''], ['', ' '], [' ']]
+    base = degenerate + base
     for ex in base:
         if tier == 'quick':
             # default options, variable-length fragments, and two more at random
@@ -320,7 +328,7 @@ def gen_cases(props, tier, seed):
             sis = range(6)
         for oi in ois:
             for si in sis:
-                for sd in ((None, 7, 0) if si in (1, 2, 3) else (None,)):
+                for sd in ((None, 7, 0) if (si in (1, 2, 3) or ex in degenerate) else (None,)):
                     cases.append((ex, oi, si, sd))
     return cases
 
